@@ -396,7 +396,7 @@ func main() {
 	rep.Assumptions = []string{"threads scheduled deterministically (default schedule) by the controlled scheduler", "the consumer mirrors httpFlvConsumer/wsFlvConsumer: flv.NewWriter + WriteFlvTag per tag"}
 	maxLen := 3
 	if rep.Thorough() {
-		maxLen = 4
+		maxLen = 5
 	}
 	cfgs := []cfg{
 		{"h264+aac gop", hx.SdpH264AAC, false, true, true},
